@@ -1,4 +1,32 @@
 (** C11 — property theorems (statements + [exact] + [Print Assumptions] only). *)
-From RainVerif Require Import Params.
-From RainVerif.model Require Import Bytes Key Version Lsm LsmSpec.
+From RainVerif.model Require Import Gc.
+From RainVerif.proofs Require Import GcProofs.
 Open Scope N_scope.
+
+(** [remove_obsolete_files] never selects a file that the current version, another live version
+    (iterator, read in flight, compaction input), an output being written, or recovery (current
+    manifest, WALs at or above the version set's WAL number, the WAL being flushed) still needs *)
+Theorem C11_never_deletes_needed : forall g current_tables f,
+  (forall n, In n current_tables -> In n (g_live g)) ->
+  needed g current_tables f -> keep g f = true.
+Proof. exact never_deletes_needed. Qed.
+Print Assumptions C11_never_deletes_needed.
+
+(** at a quiescent moment (only the current version is linked, nothing is being written, no
+    flush pending) every surviving file is needed — except manifests numbered above the current
+    one, which is the recorded known finding [orphan-newer-manifest] *)
+Theorem C11_quiescent_exact : forall g current_tables listing f,
+  g_live g = current_tables -> g_inuse g = [] -> g_prev_wal g = None ->
+  (forall n, In (FTemp n) listing -> ~ In n current_tables) ->
+  In f (gc g listing) ->
+  needed g current_tables f \/ (exists n, f = FManifest n /\ g_manifest g < n).
+Proof. exact quiescent_exact. Qed.
+Print Assumptions C11_quiescent_exact.
+
+(** the known finding is real on the model: an orphan manifest with a greater number survives *)
+Example C11_orphan_newer_manifest_refuted :
+  exists g listing f, In f (gc g listing) /\ ~ needed g [] f.
+Proof.
+  exists (mkGC [] [] 3 None 1), [FCurrent; FManifest 1; FManifest 2; FWal 3], (FManifest 2).
+  split; [vm_compute; tauto | cbn; discriminate].
+Qed.
